@@ -1744,6 +1744,8 @@ val run_rt : sx -> sx
 
 val run_dec : sx -> sx
 
+val run_cur : sx -> sx
+
 val run_stack : sx -> sx
 
 type schema =
@@ -1842,6 +1844,8 @@ val prim_schema : ty -> schema option
 val same_as_schema : schema -> value -> ctree -> bool
 
 val run_spec : sx -> sx
+
+val run_cur4 : sx -> sx
 
 val run_extmsg : sx -> sx
 
